@@ -34,6 +34,9 @@ CHECKS = {
  "C14": dict(cat="proof", tech="Coq proof (Cell.v, Props/C14.v) + differential correspondence model<->CellType",
    text="Universal Coq theorems (all widths w>=1, all operands) for wrapping_div (least solution / none), wrapping_inv, wrapping_pow and the conversions, about a hand-written Gallina model mirroring src/lib.rs; the model is tied to the current source on every run by running the extracted model and the public CellType methods (debug and release) on the same cases, exhaustively at 8 bits.",
    note="Trusted: Coq kernel, extraction (ExtrOcamlBasic), ocaml/driver.ml, harness; Cell.v is hand-written (modelled, tied by correspondence). No axioms.", ref="§4 C14"),
+ "C18": dict(cat="proof", tech="Coq proofs on SmallVec.v (refinement of Vec, drop-exactly-once ledger, representation invariant) + differential correspondence with drop-counting elements",
+   text="Theorems for every inline capacity N and every operation sequence: observable contents equal those of plain lists; every created element is dropped exactly once when both vectors are gone (Permutation with the id range); inline representation never exceeds N. Tied to src/smallvec.rs on every run: random sequences (N=1,2,3; tracked and plain elements; debug and release) must produce the model's views, iterator items, comparison results and an empty leak/double-drop ledger.",
+   note="SmallVec.v hand-written; union/MaybeUninit handling is observed through drop counting, not modelled.", ref="§4 C18"),
 }
 NA_REASON = "not yet built in this round; see DESIGN.md §9 order of construction"
 ALL = ["C%02d" % i for i in range(1, 19)]
